@@ -769,6 +769,10 @@ func (fv *FuncVC) fieldAddr(in *ssa.FieldAddr) {
 		return
 	}
 	fv.nilCheck(x.T.S, in.Pos(), "field "+f.Name())
+	if g := fv.guardSpec(); g != nil && len(fv.Fn.Params) > 0 && in.X == ssa.Value(fv.Fn.Params[0]) && g.fields[f.Name()] {
+		h := fv.heapTerm(fv.cur, "held."+heapKey(st, g.mu), SBool)
+		fv.oblige("held", f.Name(), nil, in.Pos(), app("select", h.S, x.T.S), "field "+f.Name()+" is accessed only while "+g.mu+" is held")
+	}
 	fv.vals[in] = Val{LV: &LValue{Kind: LHeap, Ref: x.T.S, HKey: heapKey(st, f.Name()), HSort: si.fsorts[in.Field], Type: f.Type()}}
 }
 
@@ -1287,4 +1291,22 @@ func panicsWithError(p *ssa.Panic) bool {
 	}
 	errT := types.Universe.Lookup("error").Type().Underlying().(*types.Interface)
 	return types.Implements(v.Type(), errT)
+}
+
+type guardSpec struct {
+	mu     string
+	fields map[string]bool
+}
+
+// guardSpec parses `flag guarded <mutex field> <field>...`.
+func (fv *FuncVC) guardSpec() *guardSpec {
+	if fv.C == nil || fv.C.Flags["guarded"] == "" {
+		return nil
+	}
+	f := strings.Fields(fv.C.Flags["guarded"])
+	g := &guardSpec{mu: f[0], fields: map[string]bool{}}
+	for _, x := range f[1:] {
+		g.fields[x] = true
+	}
+	return g
 }
